@@ -1,6 +1,6 @@
 """C20 -- parse_label / format_label / get_label under contract (clauses from the property text)."""
 import z3
-from pyvc.core import Contract, IS_DIGIT
+from pyvc.core import Contract, IS_DIGIT, LAST_PRE, LAST_SUF, PIECE_M, piece_axioms, last_split_axioms
 from pyvc.sym import (VInt, VBool, VStr, VRef, VOpt, VRec, INT, BOOL, STR, REF, TOpt, TRec, conj, disj, neg, ite,
                       implies, length, tobool, toint, tostr, fresh_name, vite, StrS)
 
@@ -47,6 +47,81 @@ def parts_glue(s, sep, r):
     return z3.Or(*opts)
 
 
+def indices_spec(s, co, gap, hm, tag="is"):
+    """(clauses, definitions, auxiliary terms) of the functional specification of head mark / co-index / gap
+    index.  t1 / t2 are named by fresh constants with defining equations (keeps the terms small)."""
+    n = z3.Length(s)
+    has_hm = z3.And(n > 0, z3.SuffixOf(S_(HM), s))
+    t1, t2 = z3.String(fresh_name(tag + "_t1")), z3.String(fresh_name(tag + "_t2"))
+    dash, eq = S_("-"), S_("=")
+    co_found = z3.And(z3.Contains(t1, dash), IS_DIGIT(LAST_SUF(t1, dash)))
+    gap_found = z3.And(z3.Contains(t2, eq), IS_DIGIT(LAST_SUF(t2, eq)))
+    defs = [t1 == z3.If(has_hm, PIECE_M(s, z3.IntVal(0), n - 1), s),      # without the head mark
+            t2 == z3.If(co_found, LAST_PRE(t1, dash), t1)]                 # without the co-index
+    clauses = [hm == z3.If(has_hm, S_(HM), S_("")),
+               co == z3.If(co_found, LAST_SUF(t1, dash), S_("")),
+               gap == z3.If(gap_found, LAST_SUF(t2, eq), S_(""))]
+    return clauses, defs, dict(t1=t1, t2=t2, has_hm=has_hm)
+
+
+def _unique_inst(t, c, a, b):
+    """instance of LEMMAS['last_split_unique'] (proved for arbitrary t, a, b)"""
+    return z3.Implies(z3.And(t == z3.Concat(a, c, b), z3.Not(z3.Contains(b, c))),
+                      z3.And(LAST_SUF(t, c) == b, LAST_PRE(t, c) == a))
+
+
+def lemma_last_split_unique(reg, repo):
+    """the split at the last occurrence of a one-character needle is unique"""
+    t, a, b = [z3.String("lu_" + k) for k in "tab"]
+    out = []
+    for nm, c in (("dash", S_("-")), ("eq", S_("="))):
+        out.append((nm, [last_split_axioms(t, c), t == z3.Concat(a, c, b), z3.Not(z3.Contains(b, c))],
+                    z3.And(LAST_SUF(t, c) == b, LAST_PRE(t, c) == a)))
+    return out
+
+
+def lemma_recognition_complete(reg, repo):
+    """from the functional clause and the meaning of the spec functions: a head mark, a co-index after the last
+    '-' and a gap index after the last '=' are recognised whenever they are there (proved once, not per path)"""
+    s, co, gap, hm = [z3.String("rc_" + k) for k in ("s", "co", "gap", "hm")]
+    D, X = z3.String("rc_D"), z3.String("rc_X")
+    clauses, defs, aux = indices_spec(s, co, gap, hm)
+    t1, t2 = aux["t1"], aux["t2"]
+    dash, eq = S_("-"), S_("=")
+    n = z3.Length(s)
+    _, pax = piece_axioms(s, z3.IntVal(0), n - 1)
+    digit_ax = [z3.Implies(IS_DIGIT(x), z3.Length(x) > 0) for x in (D, LAST_SUF(t1, dash), LAST_SUF(t2, eq))]
+    hyp = clauses + defs + pax + [last_split_axioms(t1, dash), last_split_axioms(t2, eq)] + digit_ax
+    copart = z3.If(z3.Length(co) > 0, z3.Concat(dash, co), S_(""))
+    return [
+        ("headmark", hyp, z3.Implies(z3.SuffixOf(S_(HM), s), hm == S_(HM))),
+        # s == X . "-" . D . hm with digits D free of '-'
+        ("coindex", hyp + [s == z3.Concat(X, dash, D, hm), z3.Not(z3.Contains(D, dash)), IS_DIGIT(D),
+                           z3.Not(z3.Contains(D, S_(HM))), _unique_inst(t1, dash, X, D)], co == D),
+        # s == X . "=" . D . ["-" co] . hm with digits D free of '=', '-'
+    ] + _gap_chain(hyp, s, X, D, co, gap, hm, t1, t2)
+
+
+def _gap_chain(hyp, s, X, D, co, gap, hm, t1, t2):
+    """gap index: proof by cases (co-index empty or not) x (head mark or not), each in three steps
+    (what t1 is, what t2 is, the conclusion); every step uses the previous ones as hypotheses"""
+    dash, eq = S_("-"), S_("=")
+    copart = z3.If(z3.Length(co) > 0, z3.Concat(dash, co), S_(""))
+    base = hyp + [s == z3.Concat(X, eq, D, copart, hm), z3.Not(z3.Contains(D, eq)), IS_DIGIT(D),
+                  z3.Not(z3.Contains(D, dash)), z3.Not(z3.Contains(D, S_(HM))), z3.Not(z3.Contains(co, S_(HM))),
+                  _unique_inst(t1, dash, z3.Concat(X, eq, D), co), _unique_inst(t2, eq, X, D)]
+    out = []
+    for cn, ccase in (("noco", co == S_("")), ("co", co != S_(""))):
+        for hn, hcase in (("nohm", hm == S_("")), ("hm", hm == S_(HM))):
+            h = base + [ccase, hcase]
+            f1 = t1 == z3.Concat(X, eq, D, copart)
+            f2 = t2 == z3.Concat(X, eq, D)
+            out.append(("gapindex.%s_%s.t1" % (cn, hn), h, f1))
+            out.append(("gapindex.%s_%s.t2" % (cn, hn), h + [f1], f2))
+            out.append(("gapindex.%s_%s.gap" % (cn, hn), h + [f1, f2], gap == D))
+    return out
+
+
 def build(reg):
     LABEL = TRec(label=STR, gf=STR, gf_separator=STR, coindex=STR, gapindex=STR, headmarker=STR, is_trace=BOOL)
 
@@ -78,34 +153,32 @@ def build(reg):
         return VBool(tobool(result.fields["is_trace"]) ==
                      z3.And(z3.Length(lab) > 0, z3.PrefixOf(star, lab), z3.SuffixOf(star, lab)))
 
-    def post_complete(S, label, params, result):
-        """recognition is complete: a head mark, a co-index after the last '-' and a gap index after the last '='
-        are recognised whenever they are there"""
+    def post_indices_functional(S, label, params, result):
+        """head mark, co-index and gap index as *functions* of the input (spec functions py_last_pre/suf = the
+        split at the last occurrence, py_piece_m = a slice): the head mark is a final apostrophe; the co-index is
+        what follows the last '-' of the rest if that is digits; the gap index likewise for the last '=' of what
+        then remains.  LEMMAS['recognition_complete'] derives the quantified completeness statement from this."""
         f = result.fields
         co, gap, hm = [tostr(f[k]) for k in ("coindex", "gapindex", "headmarker")]
-        s = label.t
-        X, D = z3.String(fresh_name("X")), z3.String(fresh_name("D"))
-        t = z3.If(hm == S_(HM), z3.SubString(s, 0, z3.Length(s) - 1), s)        # string without head mark
-        copart = z3.If(z3.Length(co) > 0, z3.Concat(S_("-"), co), S_(""))
-        return VBool(z3.And(
-            z3.Implies(z3.SuffixOf(S_(HM), s), hm == S_(HM)),
-            # last '-' followed by digits only => that is the co-index
-            z3.ForAll([X, D], z3.Implies(z3.And(t == z3.Concat(X, S_("-"), D), z3.Not(z3.Contains(D, S_("-"))),
-                                               IS_DIGIT(D)), co == D)),
-            # last '=' (of what remains) followed by digits only => that is the gap index
-            z3.ForAll([X, D], z3.Implies(z3.And(t == z3.Concat(X, S_("="), D, copart),
-                                               z3.Not(z3.Contains(D, S_("="))), IS_DIGIT(D)), gap == D)),
-        ))
+        clauses, defs, _ = indices_spec(label.t, co, gap, hm)
+        return VBool(z3.Implies(z3.And(*defs), z3.And(*clauses)))
 
     reg.add(Contract(
         target="trees.trees.parse_label", prop="C20", args=dict(label=STR), params=dict(gf_separator=STR),
         requires=pl_requires,
         ensures={"parts_glue_back": post_glue, "component_shapes": post_shapes, "trace_iff_starred": post_trace,
-                 "recognition_complete": post_complete},
+                 "indices_functional": post_indices_functional},
         result_type=LABEL,
-        loops={0: dict(inv=lambda S: conj(
-            S.gf_sep_pos == -1,
-            VBool(z3.Not(z3.Contains(z3.SubString(tostr(S.label), 0, toint(S.it)), tostr(S.gf_separator))))))},
+        # two of the ~120 paths need about 4 s of cvc5 on an idle machine
+        solver_hints={"post.indices_functional": {"cli_s": 30}, "inv0.after": {"cli_s": 30},
+                      "post.parts_glue_back": {"cli_s": 20}},
+        # the loop finds the first occurrence of the separator: gf_sep_pos == str.indexof(label, sep, 0)
+        loops={0: dict(
+            inv=lambda S: conj(
+                S.gf_sep_pos == -1,
+                VBool(z3.Or(z3.IndexOf(tostr(S.label), tostr(S.gf_separator), 0) == -1,
+                            z3.IndexOf(tostr(S.label), tostr(S.gf_separator), 0) >= toint(S.it)))),
+            after=lambda S: VBool(toint(S.gf_sep_pos) == z3.IndexOf(tostr(S.label), tostr(S.gf_separator), 0)))},
     ))
 
     # ---------------------------------------------------------------- format_label
@@ -167,4 +240,6 @@ def lemma_roundtrip(reg, repo):
     return vcs
 
 
-LEMMAS = {"roundtrip": lemma_roundtrip}
+LEMMAS = {"roundtrip": lemma_roundtrip, "recognition_complete": lemma_recognition_complete,
+          "last_split_unique": lemma_last_split_unique}
+LEMMA_HINTS = {"recognition_complete": {"cli_s": 60}}
